@@ -37,6 +37,16 @@ class StmtMixin:
     def s_CompoundStmt(self, n, ind):
         return [ind + '{'] + self.block(n, ind + '  ') + [ind + '}']
 
+    def s_ExprWithCleanups(self, n, ind):
+        inner = n['inner'][0]
+        if getattr(self, 's_' + inner.get('kind', ''), None) is not None:
+            return self.st(inner, ind)
+        s = self.ex(inner)
+        out = self.flush([], ind)
+        if s and s != '((void)0)':
+            out.append(f'{ind}{s};')
+        return out
+
     def s_NullStmt(self, n, ind):
         return [ind + ';']
 
@@ -98,10 +108,19 @@ class StmtMixin:
             else:
                 out.append(f'{ind}{self.decl(t, name)} = {s};')
             return out
+        core = init
+        while core.get('kind') in ('ExprWithCleanups', 'CXXBindTemporaryExpr'):
+            core = core['inner'][0]
+        if core.get('kind') == 'CXXConstructExpr' and t.kind == 'rec':
+            # construct in place (no temporary + copy): the constructor sees the variable's own address
+            self.construct_target = name
         s = self.ex(init, want=t)
+        self.construct_target = None
         out = self.flush([], ind)
         if s is None:
             out.append(f'{ind}{self.decl(t, name)};')
+        elif s == name:
+            pass
         else:
             out.append(f'{ind}{self.decl(t, name)} = {s};')
         return out
@@ -158,6 +177,20 @@ class StmtMixin:
         cond = inner[idx]
         then = inner[idx + 1]
         els = inner[idx + 2] if len(inner) > idx + 2 else None
+        if n.get('isConstexpr'):
+            cv = cond
+            while cv.get('kind') in ('ImplicitCastExpr', 'ParenExpr') and 'value' not in cv:
+                cv = cv['inner'][0]
+            val = cv.get('value')
+            if val not in ('true', 'false', True, False, '1', '0'):
+                raise LoweringError(f'if constexpr with unevaluated condition in {self.cur["name"]}')
+            taken = then if val in ('true', True, '1') else els
+            if taken is None or not taken.get('kind'):
+                return out + ([ind + '}'] if opened else [])
+            out += [ind2 + '{'] + self.block(taken, ind2 + '  ') + [ind2 + '}']
+            if opened:
+                out.append(ind + '}')
+            return out
         c = self.ex(cond)
         out += self.flush([], ind2)
         out.append(f'{ind2}if ({c}) {{')
@@ -505,7 +538,10 @@ class StmtMixin:
                 continue   # field dropped by a fields: option
             ft = fields[fname][1]
             e = c['inner'][0]
-            s = self.ex(e, want=ft)
+            if e.get('kind') == 'CXXDefaultInitExpr' and not e.get('inner'):
+                s = self.field_default(fields[fname][2], ft)
+            else:
+                s = self.ex(e, want=ft)
             lines += self.flush([], '  ')
             if s is None:
                 continue
@@ -579,15 +615,31 @@ class StmtMixin:
         return None
 
     # ---------------------------------------------------------------- lambdas
-    def lambda_fn(self, lam, name=None):
-        """lower a lambda to a static function; captures by reference become pointer parameters"""
-        if lam['id'] in self.lambdas:
-            return self.lambdas[lam['id']]
+    def lambda_instantiations(self, lam):
+        """instantiations of a generic lambda's operator() (as separate static functions)"""
         rec = lam['inner'][0]
-        call = None
+        out = []
         for c in rec.get('inner', []):
-            if c.get('kind') == 'CXXMethodDecl' and c.get('name') == 'operator()':
-                call = c
+            if c.get('kind') == 'FunctionTemplateDecl' and c.get('name') == 'operator()':
+                k = 0
+                for m in c.get('inner', []):
+                    if m.get('kind') == 'CXXMethodDecl' and any(x.get('kind') == 'TemplateArgument' for x in m.get('inner', [])):
+                        out.append(self.lambda_fn(lam, name=f'inst{k}', call=m))
+                        k += 1
+        if not out:
+            raise LoweringError('generic lambda without instantiations')
+        return out
+
+    def lambda_fn(self, lam, name=None, call=None):
+        """lower a lambda to a static function; captures by reference become pointer parameters"""
+        key = call['id'] if call is not None else lam['id']
+        if key in self.lambdas:
+            return self.lambdas[key]
+        rec = lam['inner'][0]
+        if call is None:
+            for c in rec.get('inner', []):
+                if c.get('kind') == 'CXXMethodDecl' and c.get('name') == 'operator()':
+                    call = c
         if call is None:
             raise LoweringError('generic lambda (templated operator()) is not lowered')
         caps = [c for c in rec.get('inner', []) if c.get('kind') == 'FieldDecl']
@@ -638,7 +690,7 @@ class StmtMixin:
         self.bodies.append((cname, sig + '\n' + ('\n'.join(contract) + '\n' if contract else '') + '{\n' + '\n'.join(lines) + '\n}\n'))
         self.stats['functions'] += 1
         res = {'cname': cname, 'captures': capargs, 'info': info, 'ret': rett, 'ptypes': [self.tyof(p) for p in params(call)]}
-        self.lambdas[lam['id']] = res
+        self.lambdas[key] = res
         if info['maythrow']:
             self.maythrow.add(cname)
         return res
